@@ -355,6 +355,11 @@ def r_radau_dense(rep, f, ex=None, rule="R-AFF-COLLOC"):
     except rk.AnalysisError as e:
         rep.inconc(rule, rule + ":radau:interp", str(e))
         return
+    is_view = lambda w: str(w).startswith(("mutable-view", "view-"))
+    imp_ = [w for w, n_ in getattr(isx, "imprecise", []) if is_view(w)] + [w for w in rk.imprecise_in_main(sx, hk) if is_view(w)]
+    if imp_ or u is None:
+        rep.inconc(rule, rule + ":radau:views", "the coefficient blocks are read or written through views the block model of vector buffers does not follow (%s): the stored polynomial is not derivable" % (imp_[0] if imp_ else "interpolate does not write yi componentwise"), r["node"].get("sp"))
+        return
     cont = r["cont"]
     mapping = {"HH": r["h"], "XOLD": r["xold"]}
     for a in u.atoms():
@@ -363,6 +368,11 @@ def r_radau_dense(rep, f, ex=None, rule="R-AFF-COLLOC"):
             if k in cont.blocks:
                 mapping[a] = cont.blocks[k]
             else:
+                views_ = tast.find(hk.main_loop, lambda z: z.get("k") == "MethodCall" and z.get("name") in ("split_at_mut", "chunks_mut", "chunks_exact_mut", "split_first_mut", "split_last_mut", "iter_mut")
+                                   and "f64" in (z["recv"].get("ty") or "")) if hk.main_loop is not None else []
+                if views_:
+                    rep.inconc(rule, rule + ":radau:views", "RADAU::solve writes coefficient blocks through mutable views (%s) the block model of vector buffers does not follow: the stored polynomial is not derivable" % tast.render(views_[0])[:50], r["node"].get("sp"))
+                    return
                 rep.violation(rule, rule + ":radau:blocks", "RADAU::interpolate reads block %d that the accepted path never writes" % k, r["node"].get("sp"))
                 return
     uu = u.subst(mapping)
@@ -411,6 +421,11 @@ def r_radau_start(rep, f, ex=None, rule="R-RADAU-START"):
         u, isx = rk.analyse_interpolate(f, recs[0]["fn"])
     except rk.AnalysisError as e:
         rep.inconc(rule, rule + ":interp", str(e))
+        return
+    imp_ = [w for w, n_ in getattr(isx, "imprecise", []) if str(w).startswith(("mutable-view", "view-"))]
+    if imp_ or u is None:
+        rep.inconc(rule, rule + ":views", "RADAU::interpolate reads its coefficient blocks through views the block model of vector buffers does not follow (%s): the polynomial the "
+                   "starting values continue is not derivable" % (imp_[0] if imp_ else "interpolate does not write yi componentwise"), recs[0]["node"].get("sp"))
         return
     # starting values: the first non-zero store to each z_j in the main loop that is built from the blocks of one buffer
     # (`B@k` atoms) only, with no stage value in it
